@@ -25,3 +25,9 @@ uint64_t vf_heap_live(void);             // number of live heap objects (engine)
 int vf_valid(const void* p, size_t n);   // [p,p+n) inside one live object (engine) / 1 natively
 }
 #define VF_ASSERT(c) vf_assert((c), #c)
+// threads (engine only: modelled threads over the same memory, preemption at atomic/volatile accesses and sync calls)
+extern "C" {
+uint32_t vf_spawn(void* (*fn)(void*), void* arg);
+uint64_t vf_join(uint32_t tid);
+void vf_yield(void);
+}
